@@ -41,6 +41,10 @@ type Op struct {
 	G    string   `json:"g"`
 	GNI  string   `json:"gni"`
 	Bad  string   `json:"bad"`
+	// EID is the (abstract, rank-mapped) election id <<hi, lo>> stamped on the
+	// operation; NoEID says that the operation carries no election id.
+	EID   [2]int `json:"eid"`
+	NoEID bool   `json:"noeid"`
 }
 
 // Norm makes the JSON form canonical (no null lists).
@@ -86,6 +90,7 @@ type TopE struct {
 	PL  string `json:"pl"`
 	G   string `json:"g"`
 	GNI string `json:"gni"`
+	KD  string `json:"kd"`
 }
 
 // NIState is the abstract content of one network instance.
@@ -394,6 +399,9 @@ func Concretise(o Op) (*spb.AFTOperation, error) {
 	default:
 		return nil, fmt.Errorf("bad kind %q", o.Kind)
 	}
+	if !o.NoEID {
+		p.ElectionId = ConcID(o.EID)
+	}
 	if o.Bad != "" {
 		if err := Malform(o, p); err != nil {
 			return nil, err
@@ -560,6 +568,40 @@ func RegisterOp(o Op, p *spb.AFTOperation) {
 			reg[sh] = o.PL
 		}
 	}
+	// Known lossy conversion (see KNOWN_FINDINGS: getBoolLeafDropped): the same
+	// payload without its boolean leaves is registered as "<pl>~nobool".
+	if nh, ok := e.(*aftpb.Afts_NextHopKey); ok && nh.GetNextHop().GetPopTopLabel() != nil {
+		c := proto.Clone(nh).(*aftpb.Afts_NextHopKey)
+		c.NextHop.PopTopLabel = nil
+		if p2, err := EntryParts(c); err == nil {
+			if _, ok := reg[p2.Hash]; !ok {
+				reg[p2.Hash] = o.PL + NoBoolSuffix
+			}
+		}
+		if sh2, err := expectedStructHash(c); err == nil {
+			if _, ok := reg[sh2]; !ok {
+				reg[sh2] = o.PL + NoBoolSuffix
+			}
+		}
+	}
+}
+
+// NoBoolSuffix marks a payload identity whose boolean leaves were dropped.
+const NoBoolSuffix = "~nobool"
+
+// Unquirk undoes the NoBoolSuffix marking of a payload identity.
+func Unquirk(pl string) string { return strings.TrimSuffix(pl, NoBoolSuffix) }
+
+// UnquirkRIB returns a copy of r with every next-hop payload identity unquirked.
+func UnquirkRIB(r RIBState) RIBState {
+	c := r.Copy()
+	for _, n := range c {
+		for k, v := range n.NH {
+			v.PL = Unquirk(v.PL)
+			n.NH[k] = v
+		}
+	}
+	return c
 }
 
 // expectedStruct builds, with library code only (the recipe gribigo documents
@@ -670,7 +712,7 @@ func PLName(hash string) string {
 // originate from Concretise, e.g. recorded from the repository's own tests).
 // Payload identities unknown to the registry are registered under a hash name.
 func AbstractOp(p *spb.AFTOperation) Op {
-	o := Op{ID: p.GetId(), NI: p.GetNetworkInstance(), NHs: []string{}}
+	o := Op{ID: p.GetId(), NI: p.GetNetworkInstance(), NHs: []string{}, EID: AbsID(p.GetElectionId()), NoEID: p.GetElectionId() == nil}
 	switch p.GetOp() {
 	case spb.AFTOperation_ADD:
 		o.Typ = "ADD"
@@ -788,7 +830,7 @@ func (n *NIState) PutParts(p Parts) {
 		}
 		n.NHG[p.Key] = NHGE{PL: pl, NHs: nhs, BK: p.BK}
 	default:
-		n.Top[p.Kind+":"+p.Key] = TopE{PL: pl, G: p.G, GNI: p.GNI}
+		n.Top[p.Kind+":"+p.Key] = TopE{PL: pl, G: p.G, GNI: p.GNI, KD: p.Kind}
 	}
 }
 
